@@ -55,6 +55,12 @@ Deviations from DESIGN / things the code forced:
   * BitmapAdapter has no child template: its payload domain is described wire-first (any rows*cols/8 bytes);
   * the pod literal clause compares the literal's re-encoding with the pod value's own re-encoding, so a round-trip
     loss is reported once (under its own clause) and not again as pod-reencode;
+  * every look at a private attribute of a library spec object goes through hmc.introspect (known name first, then
+    type/shape among the object's members, then behavioural probes: Collection framing from the encoding of [],
+    primitive wire type from calc_size/is_signed, bitfield layout from decoding single bits, empty_is_none / optional
+    from how None / an exhausted reader is treated).  Name misses are counted (introspection_fallbacks); an entry
+    whose tree cannot be walked at all gets generic wire-first payloads in tier 2 instead of template values
+    (listed in coverage, never a violation);
   * a round-trip oracle cannot see an encoder that loses information *consistently* with the decoder (value-first
     payloads are self-consistent); C13 holds the compressed-update template against an independent reader.
 """
